@@ -27,7 +27,6 @@ Proof.
   - destruct Hc as (_ & Hc & _). congruence.
   - destruct Hc as (_ & _ & ->). eauto.
   - destruct Hc as (_ & Hc & _). congruence.
-  - destruct Hc as (_ & Hc & _). congruence.
 Qed.
 
 Lemma st_clear_reports s n : st_fail s = Some n -> reports n s (st_clear s).
